@@ -19,7 +19,7 @@ with atheris.instrument_imports(include=['bitcoin']):
     import bitcoin.core.key
 assert os.path.abspath(bitcoin.__file__).startswith(REPO + os.sep), bitcoin.__file__
 from vlib.props import c07  # noqa: E402
-from vlib.runner import Violation, digest, shorten  # noqa: E402
+from vlib.runner import Violation, digest, guarded, shorten  # noqa: E402
 
 STATS = os.environ.get('C07_STATS')
 state = {'runs': 0, 'classes': {}, 'violations': {}, 'samples': []}
@@ -42,7 +42,7 @@ def one(data):
     case = c07.decode(data)
     state['runs'] += 1
     try:
-        info = c07.check_case(case)
+        info = guarded(c07.check_case, case)      # library-frame exceptions outside the oracle's own calls are violations too
     except Violation as v:
         if v.key not in state['violations']:
             state['violations'][v.key] = {'message': v.message, 'case': case}
